@@ -288,3 +288,35 @@ pub fn single_value(mfs: &[proto::MetricFamily]) -> Option<f64> {
     let m = f.metrics.first()?;
     m.counter.or(m.gauge)
 }
+
+/// Model-independent rendering of gathered families: every value is read through the accessor of
+/// the family's declared type (what TextEncoder does), so the string is comparable between the
+/// protobuf-backed and the plain data model.
+pub fn typed_dump(mfs: &[proto::MetricFamily]) -> String {
+    let mut out = String::new();
+    for mf in mfs {
+        let t = ptype(mf.get_field_type());
+        out.push_str(&format!("F {:?} {:?} {:?}\n", mf.name(), mf.help(), t));
+        for m in mf.get_metric() {
+            let labels: Vec<(String, String)> = m.get_label().iter().map(|l| (l.name().to_string(), l.value().to_string())).collect();
+            out.push_str(&format!(" M {:?} ts={}", labels, m.timestamp_ms()));
+            match t {
+                PType::Counter | PType::Gauge => {
+                    let (c, g) = raw_values(m);
+                    out.push_str(&format!(" v={}", fbits::enc(if t == PType::Counter { c } else { g })));
+                }
+                PType::Histogram => {
+                    let h = hist_of(m.get_histogram());
+                    out.push_str(&format!(" count={} sum={} buckets={:?}", h.count, fbits::enc(h.sum), h.buckets.iter().map(|b| (fbits::enc(b.0), b.1)).collect::<Vec<_>>()));
+                }
+                PType::Summary => {
+                    let s = summary_of(m.get_summary());
+                    out.push_str(&format!(" count={} sum={} q={:?}", s.count, fbits::enc(s.sum), s.quantiles.iter().map(|b| (fbits::enc(b.0), fbits::enc(b.1))).collect::<Vec<_>>()));
+                }
+                PType::Untyped => {}
+            }
+            out.push('\n');
+        }
+    }
+    out
+}
